@@ -10,7 +10,7 @@ os.makedirs(out, exist_ok=True)
 rows = []
 for lab in sorted(res):
     prop, k = lab.split("-")
-    real = prop.rstrip("b")
+    real = prop.rstrip("bc")
     src = os.path.join(SRC, prop, k); dst = os.path.join(out, lab); os.makedirs(dst, exist_ok=True)
     if not os.path.exists(os.path.join(src, "meta.json")):
         continue
@@ -27,7 +27,7 @@ for lab in sorted(res):
         sigs = [x.split("signature=")[1].split(" seed=")[0] for x in r["viol"].split(";") if "signature=" in x]
         evals.append({"check": r["prop"], "exit": r["rc"], "signatures": sigs}); final[r["prop"]] = (r["rc"], sigs)
     caught = [c for c, (rc, s) in final.items() if rc == 1]
-    meta["wave"] = 2 if prop.endswith("b") else 1
+    meta["wave"] = 3 if prop.endswith("c") else 2 if prop.endswith("b") else 1
     meta["evaluation"] = {"runs": evals, "caught_by": caught, "note": "each run: git -C /repo apply patch.diff; bin/check <check> --seconds 30..40; git -C /repo checkout -- .  Earlier runs with exit 0 are first-pass misses that led to a generator or oracle change (DESIGN.md 11.6); exit 2 = the machinery was being edited during that run."}
     if os.path.exists(ported):
         meta["ported"] = "patch.diff is the change re-applied by hand to the current /repo HEAD (later fix: commits touch the same lines); patch.as-written.diff is the original"
@@ -37,7 +37,7 @@ for lab in sorted(res):
     rows.append((lab, meta.get("summary", "")[:150].replace("|", "/"), "yes" if first["rc"] == 1 and first["prop"] == real else "no", "yes" if own else "no",
                  ", ".join("%s: %s" % (c, "; ".join(final[c][1][:2])) for c in caught) or "NOT CAUGHT"))
 with open(os.path.join(out, "INDEX.md"), "w") as f:
-    f.write("# Seeded breaking changes\n\nEach directory: `patch.diff` (applies to /repo HEAD with `git -C /repo apply`), `demonstration_test.go.txt` (the author's demonstration: drop into the package named in its first comment as `demo_test.go`), `meta.json` (author's description + every evaluation run).\n\nAuthors were fresh sub-agents that saw only the text of one property and a scratch worktree (wave 2, suffix b, additionally saw one-line summaries of the wave-1 changes for the same property, to avoid duplicates). \"first pass\" = caught by the property's own check as it was when the change arrived; \"own check\" = the property's own check reports it now; the last column lists every check that reports it now.\n\n| change | what it does | first pass | own check | reported by (final machinery): signatures |\n|---|---|---|---|---|\n")
+    f.write("# Seeded breaking changes\n\nEach directory: `patch.diff` (applies to /repo HEAD with `git -C /repo apply`), `demonstration_test.go.txt` (the author's demonstration: drop into the package named in its first comment as `demo_test.go`), `meta.json` (author's description + every evaluation run).\n\nAuthors were fresh sub-agents that saw only the text of one property and a scratch worktree (waves 2 and 3, suffixes b and c, additionally saw one-line summaries of the earlier changes for the same property, to avoid duplicates). \"first pass\" = caught by the property's own check as it was when the change arrived; \"own check\" = the property's own check reports it now; the last column lists every check that reports it now.\n\n| change | what it does | first pass | own check | reported by (final machinery): signatures |\n|---|---|---|---|---|\n")
     for r in rows:
         f.write("| %s | %s | %s | %s | %s |\n" % r)
     n = len(rows); c = sum(1 for r in rows if r[4] != "NOT CAUGHT"); fp = sum(1 for r in rows if r[2] == "yes"); own = sum(1 for r in rows if r[3] == "yes")
